@@ -6,7 +6,7 @@
    Universal over inputs; the programs are generated (sampled) by the check. *)
 From Coq Require Import ZArith NArith List Bool Arith.
 From Verif Require Import RegAlloc.RaIRModel RegAlloc.RaIRProofs RegAlloc.RaIRProgress RegAlloc.RaIRExamples.
-From Verif Require Import RegAlloc.RwRuleModel RegAlloc.RwRuleProofs.
+From Verif Require Import RegAlloc.RwRuleModel RegAlloc.RwRuleProofs RegAlloc.SaTrackProofs.
 From VerifGen Require Import C05IdiomTags.
 Import ListNotations.
 Local Open Scope Z_scope.
@@ -206,3 +206,67 @@ Print Assumptions C05_rejects_non_consecutive_list.
 Theorem C05_idiom_tag_table_is_a_function : ids_distinct idiom_tags = true.
 Proof. exact idiom_tags_distinct. Qed.
 Print Assumptions C05_idiom_tag_table_is_a_function.
+
+(* ---- round 5: the value semantics alu_sem behind the idiom theorems is compared with the host CPU on every run
+   (c05_harness "alu": every tagged mnemonic, every operand size, register/same-register/immediate forms, boundary
+   values) wherever alu_defined holds. These theorems say that this comparison covers every instance an idiom verdict
+   rests on: a verdict other than "no idiom" is only given where alu_sem is specified, and never for an untagged id. *)
+Theorem C05_idiom_verdicts_rest_on_specified_semantics :
+  (forall op w i, idiom_of op false (Some i) w <> INone -> alu_defined op i = true) /\
+  (forall op w b, idiom_of op true None w <> INone -> alu_defined op b = true) /\
+  (forall same imm w, idiom_of AOther same imm w = INone) /\
+  (forall tbl id, find (fun p => N.eqb (fst p) id) tbl = None -> forall same imm w, idiom_of (alu_of_id tbl id) same imm w = INone).
+Proof.
+  split; [exact idiom_imm_defined|]. split; [exact idiom_same_defined|]. split; [exact idiom_other_none|].
+  intros tbl id H same imm w. unfold alu_of_id. rewrite H. apply idiom_other_none.
+Qed.
+Print Assumptions C05_idiom_verdicts_rest_on_specified_semantics.
+
+(* not vacuous: specified and unspecified instances exist, verdicts of all three kinds exist, and alu_sem computes *)
+Theorem C05_alu_semantics_examples :
+  alu_defined AXor 5 = true /\ alu_defined AShl 1 = false /\ alu_defined AShl 0 = true /\ alu_defined AOther 0 = false /\
+  idiom_of AXor true None 4 = IWO /\ idiom_of AAnd true None 4 = IRO /\ idiom_of AOr false (Some 255) 1 = IWO /\ idiom_of AAdd false (Some 1) 4 = INone /\
+  alu_sem AXor 1 511 15 = 240 /\ alu_sem ASub 2 0 1 = 65535 /\ alu_sem VCmpEqD 8 (2^32 + 7) (2^33 + 7) = 2^32 - 1.
+Proof. vm_compute. repeat split; reflexivity. Qed.
+Print Assumptions C05_alu_semantics_examples.
+
+(* ---- round 5: stack arguments in frames with a re-aligned stack are read through the "SA" register, which the argument
+   assignment may exchange or copy first. The driver accepts "[r + k] is argument-area byte k" only while r is in the set
+   computed by sa_step / sa_at. This theorem: for ANY instruction semantics and along ANY execution from the function
+   entry, whenever the execution stands in front of an instruction other than a label, every register listed by sa_at
+   there holds (in its low aw bytes) the address A that the registers m0 held at the entry. *)
+Theorem C05_sa_register_tracking_sound :
+  forall (world : Type) (sem : opcode -> list Z -> world -> list Z * world) (semc : opcode -> list Z -> world -> bool)
+         (aw : nat) (A : Z) (p : tprog) (m0 : list N) (n : nat) T0 W0 pc T W i,
+  (forall r, In r m0 -> tr aw (rs T0 0%N r) = A) ->
+  trun world sem semc n p (0%nat, T0, W0) = Next (pc, T, W) ->
+  nth_error p pc = Some i -> (forall l, i <> TLabel l) ->
+  forall r, In r (sa_at aw p m0 pc) -> tr aw (rs T 0%N r) = A.
+Proof. intros world sem semc aw A p m0 n T0 W0 pc T W i. exact (sa_track_sound_entry world sem semc aw A p m0 n T0 W0 pc T W i). Qed.
+Print Assumptions C05_sa_register_tracking_sound.
+
+(* not vacuous, and what must NOT be accepted: the set follows an exchange and a full-width copy (pc 2, 3), loses a register
+   that is overwritten (pc 4) or copied at less than the address width (pc 5: 4 of 8 bytes), survives an instruction that
+   defines other registers, and is empty behind any label *)
+Theorem C05_sa_register_tracking_examples :
+  let p := [TOp 1%N [] [(LReg 0 7, 8%nat)]; TSwap (LReg 0 0) (LReg 0 1) 8; TMove (LReg 0 3) (LReg 0 1) 8 false 8;
+            TMove (LReg 0 1) (LSlot 40) 8 false 8; TMove (LReg 0 2) (LReg 0 3) 4 false 8; TOp 2%N [(LReg 0 3, 8%nat)] [(LReg 1 3, 16%nat); (LReg 0 5, 8%nat)];
+            TLabel 9%N; TMove (LReg 0 6) (LReg 0 3) 8 false 8] in
+  map (sa_at 8 p [0%N]) [1; 2; 3; 4; 5; 6; 7; 8]%nat = [[0]; [1]; [3; 1]; [3]; [3]; [3]; []; []]%N /\
+  sa_at 8 [TOp 1%N [] [(LReg 0 0, 8%nat)]] [0%N] 1 = [].
+Proof. vm_compute. split; reflexivity. Qed.
+Print Assumptions C05_sa_register_tracking_examples.
+
+(* ---- round 5: by-reference vector arguments (see RaIRExamples, 12): the pattern the dumper prints for
+   "lea p, [sp+k]; movaps [p], x; mov rcx, p; call" is accepted, and what must NOT be accepted is refused - a spill into the
+   temporary between the copy and the call, and a call whose pointer register was never loaded *)
+Theorem C05_accepts_by_reference_argument :
+  validate_full ex_src_byref ex_byref_good [Some 0; Some 1; None; None; Some 2; Some 4]%nat = true.
+Proof. exact ex_byref_accepted. Qed.
+Print Assumptions C05_accepts_by_reference_argument.
+
+Theorem C05_rejects_by_reference_argument_overwritten_or_without_pointer :
+  validate ex_src_byref ex_byref_overwritten [Some 0; Some 1; None; None; None; Some 2; Some 4]%nat = false /\
+  validate ex_src_byref ex_byref_no_pointer [Some 0; Some 1; None; Some 2; Some 4]%nat = false.
+Proof. exact (conj ex_byref_overwritten_rejected ex_byref_no_pointer_rejected). Qed.
+Print Assumptions C05_rejects_by_reference_argument_overwritten_or_without_pointer.
